@@ -2,10 +2,9 @@ package props
 
 import (
 	"strings"
+	"testing"
 
 	"pgregory.net/rapid"
-
-	"testing"
 
 	"verif/harness/engine"
 )
@@ -26,28 +25,95 @@ func lifeCfg() engine.GenCfg {
 	return cfg
 }
 
-func any(c *engine.Case, w *engine.World) bool { return w.Delivered >= 3 }
+func f(w *engine.World, k string) int { return w.Feat[k] }
 
-func TestC02(t *testing.T) { engine.CheckE1(t, "C02", baseCfg(), any) }
-func TestC03(t *testing.T) { engine.CheckE1(t, "C03", baseCfg(), any) }
+func TestC02(t *testing.T) {
+	cfg := baseCfg()
+	cfg.PRemoveNow = 35
+	cfg.PApi = 15
+	engine.CheckE1(t, "C02", cfg, func(c *engine.Case, w *engine.World) bool {
+		return w.Delivered >= 3 && (f(w, "silent-ops") > 0 || f(w, "remove-inside-burst") > 0 || f(w, "housekeeping-only-ops") > 0)
+	})
+}
+
+func TestC03(t *testing.T) {
+	cfg := baseCfg()
+	cfg.Bufs = []int{0, 1, 2, 7, 64, 4096}
+	cfg.MaxAdds = 6
+	cfg.MaxNames = 4
+	cfg.W = map[string]int{
+		engine.KCreate: 14, engine.KWrite: 12, engine.KChmod: 8, engine.KUnlink: 10, engine.KRename: 18, engine.KMkdir: 2, engine.KRmdir: 1,
+		engine.KTrunc: 3, engine.KLink: 2, engine.KHold: 1, engine.KRelease: 1,
+	}
+	engine.CheckE1(t, "C03", cfg, func(c *engine.Case, w *engine.World) bool {
+		return len(w.EvDirs) >= 2 && w.Delivered >= 6 && (w.M.NCookiePairs > 0 || f(w, "renames-with-events") > 0)
+	})
+}
+
 func TestC04(t *testing.T) {
 	cfg := lifeCfg()
 	cfg.PApi = 50
 	cfg.ListEvery = true
-	engine.CheckE1(t, "C04", cfg, any)
+	engine.CheckE1(t, "C04", cfg, func(c *engine.Case, w *engine.World) bool {
+		return f(w, "add-new") > 0 && (f(w, "add-alias") > 0 || f(w, "add-fail") > 0 || f(w, "remove-unlisted") > 0 ||
+			f(w, "add-repoint") > 0 || f(w, "add-repoint-onto-watched") > 0)
+	})
 }
-func TestC08(t *testing.T) { engine.CheckE1(t, "C08", baseCfg(), any) }
+
+func TestC08(t *testing.T) {
+	cfg := baseCfg()
+	cfg.PPlug = 85
+	cfg.PBurst = 55
+	engine.CheckE1(t, "C08", cfg, func(c *engine.Case, w *engine.World) bool {
+		return (f(w, "add-unclean-or-absolute-spelling") > 0 || f(w, "add-through-symlink") > 0) &&
+			(f(w, "boundary-name-events") > 0 || f(w, "non-ascii-name-events") > 0) && f(w, "events-decoded-at-offset>0") > 0
+	})
+}
+
 func TestC09(t *testing.T) {
 	cfg := lifeCfg()
 	cfg.ListEvery = true
-	engine.CheckE1(t, "C09", cfg, any)
+	cfg.POnTop = 8
+	engine.CheckE1(t, "C09", cfg, func(c *engine.Case, w *engine.World) bool {
+		return w.M.NDeleteSelf+w.M.NMoveSelf > 0 && w.Delivered >= 2
+	})
 }
-func TestC10(t *testing.T) { engine.CheckE1(t, "C10", baseCfg(), any) }
-func TestC11(t *testing.T) { engine.CheckE1(t, "C11", baseCfg(), any) }
+
+func TestC10(t *testing.T) {
+	cfg := lifeCfg()
+	cfg.PBurst = 75
+	cfg.PPlug = 90
+	cfg.MaxBurst = 12
+	cfg.POnTop = 12
+	cfg.PApi = 20
+	engine.CheckE1(t, "C10", cfg, func(c *engine.Case, w *engine.World) bool {
+		return f(w, "plug") > 0 && w.M.NDeleteSelf+w.M.NMoveSelf > 0
+	})
+}
+
+func TestC11(t *testing.T) {
+	cfg := baseCfg()
+	cfg.MinOps = 20
+	cfg.MaxOps = 70
+	cfg.MaxNames = 5
+	cfg.Shapes = false
+	cfg.WatchFiles = 5
+	cfg.POnTop = -1
+	cfg.PApi = 5
+	cfg.W = map[string]int{
+		engine.KCreate: 12, engine.KRename: 45, engine.KLink: 6, engine.KUnlink: 6, engine.KWrite: 3, engine.KMkdir: 3, engine.KSymlink: 2,
+	}
+	engine.CheckE1(t, "C11", cfg, func(c *engine.Case, w *engine.World) bool {
+		return w.M.NCookiePairs > 0 && (w.M.NUnmatchedOut > 0 || f(w, "renames-with-events") > 10) && w.Delivered >= 4
+	})
+}
+
 func TestC12(t *testing.T) {
 	cfg := lifeCfg()
 	cfg.Fdchk = true
-	engine.CheckE1(t, "C12", cfg, any)
+	engine.CheckE1(t, "C12", cfg, func(c *engine.Case, w *engine.World) bool {
+		return f(w, "add-repoint") > 0 || f(w, "add-repoint-onto-watched") > 0 || f(w, "remove-listed")+f(w, "add-again") >= 3
+	})
 }
 
 func TestC14(t *testing.T) {
